@@ -32,7 +32,9 @@ SPELL = ["{}", "./{}", "d/../{}", "./d/../{}", "d/.././{}"]
 
 def build(n, edges, mode, partial=()):
     """edges: list of (src index, dst index or None, kind, spelling template)"""
-    names = [(("_" if i in partial else "") + FILES[i] + ".scss") for i in range(n)]
+    # a file without loads of its own is sometimes a plain css file (deterministic in the graph)
+    leaf_css = {i for i in range(1, n) if not any(s == i for (s, _, _, _) in edges) and (i + len(edges)) % 4 == 0}
+    names = [(("_" if i in partial else "") + FILES[i] + (".css" if i in leaf_css else ".scss")) for i in range(n)]
     bodies = [[["emit", i]] for i in range(n)]
     for (s, d, k, sp) in edges:
         target = FILES[d] if d is not None else "zz"
